@@ -202,3 +202,41 @@ def evaluate(repo: Repo, func: FuncInfo, tier="quick", modes=("vac", "T", "p"), 
         for o in outs:
             out.append(PM(repo, func, label, meta, o) if o.kind == "return" else (label, meta, o))
     return out
+
+
+def oracle(pm: PM, src: str, **env) -> Val:
+    """Normal form of an oracle expression (the property's own formula) written
+    in Python, over the same atoms as the model it is compared with."""
+    import ast as _ast
+    from .evaluator import Evaluator
+    from .symeval import Ctx
+    from .interp import Frame
+    cfg = make_config(dict(pm.out.facts), ret_summary=permeance_summary)
+    ctx = Ctx(pm.repo, cfg, [])
+    ev = Evaluator(ctx)
+    f = pm.func
+    e = {"self": ObjV(f.cls, path="self")}
+    from .symeval import opaque_of
+    for p in f.params[1:]:
+        ty = parse_type(pm.repo, f.module, f.annotations.get(p), f.cls)
+        e[p] = opaque_of(ty, p, ctx)
+    for k, v in env.items():
+        e[k] = v if isinstance(v, Val) else Num(v)
+    fr = Frame(f, f.module, e, f.cls)
+    return ev.eval(_ast.parse(src, mode="eval").body, fr)
+
+
+def field_renamer(pm: PM):
+    """Map local series names to the ProcessModel field they are bound to, so
+    that normal forms of sibling functions can be compared whatever their
+    local variables are called."""
+    m = {}
+    for fld, v in pm.value.fields.items():
+        if isinstance(v, ListV) and v.kind == "series":
+            m[v.name] = fld
+    def fn(s: str) -> str:
+        for loc, fld in m.items():
+            if s.startswith(loc + "[k]"):
+                return "@" + fld + s[len(loc):]
+        return s
+    return fn
